@@ -88,13 +88,33 @@ func main() {
 		w := loadAll()
 		allOK := true
 		for _, k := range fs.Args() {
-			fi := w.LookupFunc(k)
+			closure := 0
+			fkey := k
+			if i := strings.Index(fkey, "#"); i >= 0 {
+				fmt.Sscan(fkey[i+1:], &closure)
+				fkey = fkey[:i]
+			}
+			fi := w.LookupFunc(fkey)
+			events := false
+			if fi == nil && strings.HasPrefix(fkey, "emitted.") {
+				if err := w.LoadEmitted(); err != nil {
+					fmt.Println("emitted:", err)
+					allOK = false
+					continue
+				}
+				fi = w.LookupEmitted(strings.TrimPrefix(fkey, "emitted."))
+				events = true
+			}
 			if fi == nil {
 				fmt.Println("unknown function", k)
 				allOK = false
 				continue
 			}
-			r := w.VerifyFunc(fi, w.contractFor(fi), VerifyOpts{Safety: *safety, Timeout: 10 * time.Second})
+			c := w.contractFor(fi)
+			if closure > 0 {
+				c = w.Contracts[fmt.Sprintf("emitted.%s_closure%d", strings.ReplaceAll(strings.TrimPrefix(fkey, "emitted."), ".", "_"), closure)]
+			}
+			r := w.VerifyFunc(fi, c, VerifyOpts{Safety: *safety, Events: events, Closure: closure, Timeout: 10 * time.Second})
 			if !printUnit(r, *verbose) {
 				allOK = false
 				if *dump != "" {
